@@ -37,7 +37,7 @@ ASSUMPTIONS = [
 
 def run(ctx: Ctx):
   m = model(ctx)
-  for r in (r1, r2, r3, r4, r5):
+  for r in (r1, r2, r3, r4, r5, r7, r8):
     ctx.guard(r, m)
   from mlmverif.props import c04
   ctx.include('R-C05-6', '"never an indefinite wait": the queue\'s monitor'
@@ -50,7 +50,7 @@ def run(ctx: Ctx):
 def _c04_shared(sub, m):
   from mlmverif.props import c04
   for r in (c04.r1, c04.r3, c04.r4, c04.r9):
-    r(sub, m)
+    sub.guard(r, m)
 
 
 def _explicit_only(n, mm, lab):
@@ -247,7 +247,8 @@ def r4(ctx: Ctx, m):
   rule = 'R-C05-4'
   ctx.rule(rule, 'timed waits: every Condition.wait passes the configured'
            ' timeout and its false (timed-out) outcome reaches only'
-           ' `raise TimeoutError`')
+           ' `raise TimeoutError` — except over `if <batch>:` taken true, where'
+           ' a non-empty batch already dequeued is handed over (not starved)')
   cnt = 0
   for fi in m.methods():
     g = cfgm.cfg_of(fi.node)
@@ -283,8 +284,20 @@ def r4(ctx: Ctx, m):
       for s in starts:
         if is_timeout_raise(s):
           continue
-        w = g.must_pass(s, [g.exit_ret, g.exit_exc, n], is_timeout_raise,
-                        cfgm.no_close)
+        # not starved: a batch list that already holds dequeued elements may
+        # be handed over instead (`if <batch>: break/return`)
+        batches = {x.func.value.id for x in ast.walk(fi.node) if isinstance(x, ast.Call)
+                   and isinstance(x.func, ast.Attribute) and x.func.attr == 'append'
+                   and isinstance(x.func.value, ast.Name)}
+
+        def edge_ok(p_, q_, lab_, batches=batches):
+          if lab_ == 'close':
+            return False
+          if p_.kind == 'cond' and isinstance(p_.ast, ast.Name) and p_.ast.id in batches and lab_ == 'true':
+            return False
+          return True
+
+        w = g.must_pass(s, [g.exit_ret, g.exit_exc, n], is_timeout_raise, edge_ok)
         if w is not None:
           bad = w
       if bad is not None or not starts:
@@ -437,10 +450,130 @@ def r5(ctx: Ctx, m):
   ctx.floor(rule, 8)
 
 
+def _may_be_none(e: ast.AST, fi: FuncInfo, depth: int = 0) -> bool:
+  if depth > 4:
+    return True
+  if isinstance(e, ast.Constant):
+    return e.value is None
+  if isinstance(e, ast.IfExp):
+    return _may_be_none(e.body, fi, depth + 1) or _may_be_none(e.orelse, fi, depth + 1)
+  if isinstance(e, ast.BoolOp):
+    if isinstance(e.op, ast.Or):
+      return _may_be_none(e.values[-1], fi, depth + 1)
+    return any(_may_be_none(v, fi, depth + 1) for v in e.values)
+  if isinstance(e, ast.NamedExpr):
+    return _may_be_none(e.value, fi, depth + 1)
+  if isinstance(e, ast.Name):
+    vals = []
+    for x in ast.walk(fi.node):
+      if isinstance(x, ast.ExceptHandler) and x.name == e.id:
+        vals.append(None)  # a caught exception object
+      elif isinstance(x, ast.Assign) and any(isinstance(t, ast.Name) and t.id == e.id for t in x.targets):
+        vals.append(x.value)
+      elif isinstance(x, ast.NamedExpr) and x.target.id == e.id:
+        vals.append(x.value)
+    if vals:
+      return any(v is not None and _may_be_none(v, fi, depth + 1) for v in vals)
+    a = fi.node.args
+    params = a.posonlyargs + a.args
+    defaults = [None] * (len(params) - len(a.defaults)) + list(a.defaults)
+    for p_, d in list(zip(params, defaults)) + list(zip(a.kwonlyargs, a.kw_defaults)):
+      if p_.arg == e.id:
+        return d is not None and _may_be_none(d, fi, depth + 1)
+    return False
+  return False
+
+
+def r7(ctx: Ctx, m):
+  rule = 'R-C05-7'
+  ctx.rule(rule, 'configuration reaches the queue: every parameter of a'
+           ' queue-family constructor is read in its body (stored, or'
+           ' forwarded to super().__init__) — a configured timeout that is'
+           ' dropped on the way makes a starved get/put block for ever')
+  n = 0
+  for ci in m.classes:
+    init = ci.methods.get('__init__')
+    if init is None:
+      continue
+    read = {x.id for x in ast.walk(init.node) if isinstance(x, ast.Name)
+            and isinstance(x.ctx, ast.Load)}
+    for pn in init.params()[1:]:
+      n += 1
+      if pn in read:
+        ctx.ok(rule, init, f'{ci.name}.__init__ uses `{pn}`', init.node)
+      else:
+        ctx.fail(rule, init, f'{ci.name}.__init__({pn}=...)',
+                 f'the constructor parameter `{pn}` of {ci.name} is never read:'
+                 ' the configured value is silently ignored (for `timeout`:'
+                 ' every inherited get/put waits without a deadline)', node=init.node)
+    # parameters shared with the base constructor are forwarded under their name
+    sup = [c for c in ast.walk(init.node) if isinstance(c, ast.Call)
+           and unparse(c.func) == 'super().__init__']
+    bases = [b for b in m.repo.mro(ci)[1:] if '__init__' in b.methods]
+    if sup and bases:
+      bps = bases[0].methods['__init__'].params()[1:]
+      c = sup[0]
+      if not any(k.arg is None for k in c.keywords) and not any(isinstance(a, ast.Starred) for a in c.args):
+        passed = {bp: unparse(a) for bp, a in zip(bps, c.args)}
+        passed.update({k.arg: unparse(k.value) for k in c.keywords})
+        for pn in init.params()[1:]:
+          if pn in bps:
+            n += 1
+            if passed.get(pn) == pn:
+              ctx.ok(rule, init, f'{ci.name}.__init__ forwards `{pn}` to {bases[0].name}', c)
+            else:
+              ctx.fail(rule, init, f'{ci.name}.__init__: super().__init__({pn}={pn})',
+                       f'`{pn}` is accepted by {ci.name} and by {bases[0].name} but is'
+                       f' forwarded as `{passed.get(pn)}`: the base class runs with'
+                       ' its default instead of the configured value', node=c)
+  ctx.floor(rule, 10, n)
+
+
+def r8(ctx: Ctx, m):
+  rule = 'R-C05-8'
+  ctx.rule(rule, 'a recorded failure is sticky: outside the constructor no'
+           ' store to the queue\'s failure slot can write None (a later plain'
+           ' stop request must not turn a failed stream into a clean'
+           ' end-of-stream for the consumers that have not seen it yet)')
+  n = 0
+  for fi in m.methods():
+    if fi.name in ('__init__',):
+      continue
+    for x in walk_no_nested(fi.node):
+      if isinstance(x, (ast.Assign, ast.AnnAssign)):
+        tg = x.targets if isinstance(x, ast.Assign) else [x.target]
+        if any(is_self_attr(t, '_exception') for t in tg) and x.value is not None:
+          n += 1
+          if _may_be_none(x.value, fi):
+            ctx.fail(rule, fi, x,
+                     f'{fi.qualname} stores `{unparse(x.value)[:60]}` into the failure'
+                     ' slot, which can be None: a stop request erases the recorded'
+                     ' producer failure and consumers that read afterwards see a'
+                     ' clean end-of-stream')
+          else:
+            ctx.ok(rule, fi, f'{fi.qualname}: stores a definite exception', x)
+  ctx.floor(rule, 3, n)
+
+
 from mlmverif.selfcheck import B, OK  # noqa: E402
 
 _F = 'utils/iter_utils.py'
 VARIANTS = [
+    B('async-queue-drops-timeout', _F,
+      '        name=name,\n        timeout=timeout,\n        ignore_error=ignore_error,\n        max_batch_size=max_batch_size,\n    )\n    self._thread_pool = thread_pool',
+      '        name=name,\n        ignore_error=ignore_error,\n        max_batch_size=max_batch_size,\n    )\n    self._thread_pool = thread_pool',
+      'R-C05-7'),
+    B('async-queue-forwards-wrong-value', _F,
+      '        name=name,\n        timeout=timeout,\n        ignore_error=ignore_error,\n        max_batch_size=max_batch_size,\n    )\n    self._thread_pool = thread_pool',
+      '        name=name,\n        timeout=None if thread_pool else timeout,\n        ignore_error=ignore_error,\n        max_batch_size=max_batch_size,\n    )\n    self._thread_pool = thread_pool',
+      'R-C05-7'),
+    B('plain-stop-erases-failure', _F,
+      '      if not is_stop_iteration(exc):\n        self._exception = exc\n      assert self.enqueue_done',
+      '      self._exception = None if is_stop_iteration(exc) else exc\n      assert self.enqueue_done',
+      'R-C05-8'),
+    OK('stop-stores-in-else-branch', _F,
+       '      if not is_stop_iteration(exc):\n        self._exception = exc\n      assert self.enqueue_done',
+       '      if is_stop_iteration(exc):\n        pass\n      else:\n        self._exception = exc\n      assert self.enqueue_done'),
     B('maybe-stop-no-enqueue-notify', _F,
       '    with self._enqueue_lock:\n      self._enqueue_lock.notify_all()\n    with self._dequeue_lock:\n      if not is_stop_iteration(exc):',
       '    with self._dequeue_lock:\n      if not is_stop_iteration(exc):', 'R-C05-5'),
